@@ -130,7 +130,8 @@ pub fn run(_params: &Params) {
     };
     let Ok(list) = StatusList2021::new(entries) else { return };
     let len = list.len();
-    let url = format!("https://status.example/lists/{i}");
+    // list ids that are string prefixes of one another (".../lists/1", ".../lists/12"): ids must match exactly
+    let url = format!("https://status.example/lists/1{}", "2".repeat(i));
     let built = StatusList2021CredentialBuilder::new(list)
       .purpose(purpose)
       .subject_id(Url::parse(if ctx::choose(2) == 0 { format!("{url}#list") } else { url.clone() }).unwrap())
